@@ -123,10 +123,11 @@ func m1Limiter(idx int64, r *rand.Rand) {
 	}
 	rec.Clock = h.Tick
 	var st core.Strategy
+	stratArg := []int{initial, initial, 1, initial + 1 + r.IntN(9)}[r.IntN(4)] // placeholder: the limiter seeds the strategy with the estimate
 	if stratKind == "simple" {
-		st = strategy.NewSimpleStrategy(initial)
+		st = strategy.NewSimpleStrategy(stratArg)
 	} else {
-		st = strategy.NewPreciseStrategy(initial)
+		st = strategy.NewPreciseStrategy(stratArg)
 	}
 	windowSize := 10
 	dl, err := limiter.NewDefaultLimiter(rec, 1, 1, 0, windowSize, st, limit.NoopLimitLogger{}, core.EmptyMetricRegistryInstance)
@@ -245,7 +246,7 @@ func m1Limiter(idx int64, r *rand.Rand) {
 	rt.Count("m1_operations", int64(len(ops)))
 	rt.Count("m1_overlapping_operation_pairs", int64(ov))
 	rt.Count("m1_sample_driven_limit_updates", int64(sets))
-	cfg := rt.J{"target": "DefaultLimiter+" + stratKind, "algorithm": algo, "initial_limit": start, "goroutines": nG, "yield_in_simple_strategy": yield}
+	cfg := rt.J{"target": "DefaultLimiter+" + stratKind, "algorithm": algo, "initial_limit": start, "goroutines": nG, "yield_in_simple_strategy": yield, "strategy_constructed_with": stratArg}
 	res, _ := lin.Check(model(start), ops, 10*time.Second)
 	switch res {
 	case porcupine.Illegal:
@@ -356,6 +357,7 @@ func m2(idx int64, r *rand.Rand) {
 	L := 1 + r.IntN(3)
 	target := []string{"limiter+simple", "limiter+precise", "precise-direct"}[r.IntN(3)]
 	var acquire func() (func(int), bool)
+	stratArgM2 := L
 	switch target {
 	case "precise-direct":
 		st := strategy.NewPreciseStrategy(L)
@@ -367,9 +369,12 @@ func m2(idx int64, r *rand.Rand) {
 			return func(int) { tk.Release() }, true
 		}
 	default:
-		var st core.Strategy = strategy.NewSimpleStrategy(L)
+		// the number handed to the strategy's constructor is a placeholder: the limiter enforces the algorithm's limit
+		arg := []int{L, L, 1, L + 1 + r.IntN(9)}[r.IntN(4)]
+		stratArgM2 = arg
+		var st core.Strategy = strategy.NewSimpleStrategy(arg)
 		if target == "limiter+precise" {
-			st = strategy.NewPreciseStrategy(L)
+			st = strategy.NewPreciseStrategy(arg)
 		}
 		dl, err := limiter.NewDefaultLimiter(limit.NewFixedLimit("c01", L, nil), 1, 1, 0, 10, st, limit.NoopLimitLogger{}, core.EmptyMetricRegistryInstance)
 		if err != nil {
@@ -484,7 +489,7 @@ func m2(idx int64, r *rand.Rand) {
 	rt.Count("m2_operations", int64(grants+refusals))
 	rt.Count("m2_refusals_checked", int64(refusals))
 	rt.Max("max:m2_simultaneous_holders_lower_bound_minus_limit", int64(maxLB-L))
-	cfg := rt.J{"target": target, "limit": L, "goroutines": nG, "hold": hold, "yield_in_simple_strategy": yield, "grants": grants, "refusals": refusals}
+	cfg := rt.J{"target": target, "limit": L, "strategy_constructed_with": stratArgM2, "goroutines": nG, "hold": hold, "yield_in_simple_strategy": yield, "grants": grants, "refusals": refusals}
 	if maxLB > L {
 		rt.Violation("C01/"+target+"/more-tokens-held-than-the-limit", idx, rt.J{"config": cfg, "holders_lower_bound": maxLB})
 		return
